@@ -82,7 +82,17 @@ def gen_case(rng, i, tier):
             p = rng.choice([a, b])
         return {"fn": "ptseg", "cls": cls, "a": a, "b": b, "p": p, "L": L}
     if r < 0.85:
-        kind = rng.choice(["random", "random", "crossing", "parallel", "tjunction", "far", "shared_end", "shared_end", "identical"])
+        kind = rng.choice(["random", "random", "crossing", "parallel", "tjunction", "far", "shared_end", "shared_end", "identical", "shallow_crossing"])
+        if kind == "shallow_crossing":
+            # two long (1.5-4 km) roads that really cross, at a few milliradians, near the equator where the local frame is best
+            a = (rng.uniform(-25, 25), a[1])
+            L = rng.uniform(1500, 4000)
+            b = rg.gc_dest(a, brg, L)
+            mid = rg.gc_dest(a, brg, rng.uniform(0.35, 0.65) * L)
+            b2 = brg + math.degrees(rng.uniform(2e-3, 9e-3)) * rng.choice([1, -1])
+            c = rg.gc_dest(mid, b2, rng.uniform(0.35, 0.6) * L)
+            d = rg.gc_dest(mid, b2 + 180, rng.uniform(0.35, 0.6) * L)
+            return {"fn": "segseg", "cls": kind, "a": a, "b": b, "c": c, "d": d, "L": L}
         if kind == "shared_end":
             # consecutive roads: the two segments share one end point bit for bit, in one of the four orientations
             # (f1==t1, f1==t2, f2==t1, f2==t2); a fifth has a zero-length second segment in the shared point
